@@ -39,6 +39,9 @@ def create_retry(attempts, exc_type=Exception):
                 except exc_type:
                     is_last_attempt = attempt_index == attempts - 1
                     if is_last_attempt:
+                        # This frame stays reachable from the error's traceback; do not let it keep
+                        # the arguments alive for as long as the error is kept.
+                        del args, kwargs
                         raise
 
         return wrapper
